@@ -5,7 +5,7 @@ package gen
 // as unsigned values in [0, 2^p).
 var Classes = []string{
 	"noise", "const", "twolevel", "altext", "ramp", "checker", "runs",
-	"runend", "impulses", "lowent", "edges", "rampstep", "vstripes", "smooth",
+	"runend", "impulses", "lowent", "edges", "rampstep", "vstripes", "smooth", "bands",
 }
 
 // Content builds w*h*c samples of the given class.  aux parameterises a few
@@ -190,6 +190,68 @@ func Content(r *Rand, class string, w, h, c, p, aux int) []int {
 						v = max
 					}
 					*at(x, y, k) = v
+				}
+			}
+		}
+	case "bands":
+		// every row constant; neighbouring rows differ (first-column differences
+		// whose category no other sample of the image uses)
+		v := r.Intn(max + 1)
+		for y := 0; y < h; y++ {
+			if y == 0 || !r.Chance(1, 4) {
+				v = r.Intn(max + 1)
+			}
+			for x := 0; x < w; x++ {
+				for k := 0; k < c; k++ {
+					*at(x, y, k) = (v + k) & max
+				}
+			}
+		}
+	case "fibcat":
+		// left-neighbour differences whose Huffman categories 0..P follow Fibonacci
+		// frequencies (deepest possible code tree; category 16 = difference -32768 at P=16)
+		fib := []int{1, 1}
+		for len(fib) <= p {
+			fib = append(fib, fib[len(fib)-1]+fib[len(fib)-2])
+		}
+		var cats []int
+		for len(cats) < n {
+			for cat := 0; cat <= p; cat++ {
+				for i := 0; i < fib[p-cat]; i++ {
+					cats = append(cats, cat)
+				}
+			}
+		}
+		for i := len(cats) - 1; i > 0; i-- {
+			j := r.Intn(i + 1)
+			cats[i], cats[j] = cats[j], cats[i]
+		}
+		mod := max + 1
+		for k := 0; k < c; k++ {
+			prev := 1 << uint(p-1)
+			for y := 0; y < h; y++ {
+				for x := 0; x < w; x++ {
+					cat := cats[((y*w+x)*c+k)%len(cats)]
+					d := 0
+					switch {
+					case cat == 0:
+					case cat == p && p == 16:
+						d = -32768
+					default:
+						d = 1<<uint(cat-1) + r.Intn(1<<uint(cat-1))
+						if cat >= p {
+							d = 1<<uint(p-1) + r.Intn(1<<uint(p-1)) - 1
+						}
+						if r.Bool() {
+							d = -d
+						}
+					}
+					if x == 0 && y > 0 {
+						prev = *at(0, y-1, k)
+					}
+					v := ((prev+d)%mod + mod) % mod
+					*at(x, y, k) = v
+					prev = v
 				}
 			}
 		}
